@@ -34,7 +34,8 @@ pub mod ffi {
     #[diplomat::opaque]
     pub struct Tr(pub u32);
     #[diplomat::opaque]
-    pub struct Holder(pub Vec<Box<dyn Fn(u32) -> u32>>, pub u32);
+    /// keeps `FnMut` callbacks (the macro wraps `Fn` and `FnMut` parameters through different code)
+    pub struct Holder(pub Vec<Box<dyn FnMut(u32) -> u32>>, pub u32);
     /// keeps callbacks through a shared reference (interior mutability)
     #[diplomat::opaque]
     pub struct Shared(pub std::cell::RefCell<Vec<Box<dyn Fn(u32) -> u32>>>, pub u32);
@@ -63,8 +64,8 @@ pub mod ffi {
     }
     impl Holder {
         pub fn new(id: u32) -> Box<Holder> { Box::new(Holder(Vec::new(), id)) }
-        pub fn keep(&mut self, f: impl Fn(u32) -> u32 + 'static) { self.0.push(Box::new(f)); }
-        pub fn call_all(&self) -> u32 { self.0.iter().map(|f| f(self.1)).sum() }
+        pub fn keep(&mut self, f: impl FnMut(u32) -> u32 + 'static) { self.0.push(Box::new(f)); }
+        pub fn call_all(&mut self) -> u32 { let x = self.1; self.0.iter_mut().map(|f| f(x)).sum() }
     }
     impl Shared {
         pub fn new(id: u32) -> Box<Shared> { Box::new(Shared(std::cell::RefCell::new(Vec::new()), id)) }
